@@ -23,6 +23,11 @@ def run(tier):
     C = Check("C06", "other", tier, "model checking of both readers' token-cursor interpretations in product with the same role-annotated well-formed token grammar (sibling cross-check)",
               ["rustc HIR/typeck", "hirai interpreter", "well-formed token grammar oracle (rules/deb822_parse.py)"])
     wf = deb822_parse.wellformed_dfa()
+    # C06 quantifies over every text both readers accept: add the indented-comment line form (" #x"), which both
+    # readers deliberately treat as a comment inside a multi-line value (outside C03's domain, inside C06's).
+    wf.trans["I"]["COMMENT"] = ("IC", "cont-comment")
+    wf.trans["IC"] = {"NEWLINE": ("L", "field-nl")}
+    wf.accepting.add("IC")
     need = {"key-first", "key-next", "value", "para-comment", "top-comment", "blank-sep", "indent", "colon-ws", "field-nl"}
     # ---- lossy
     f = F.fn(lp.ENTRY_KEY)
